@@ -119,6 +119,17 @@ def gen_cases(ctx):
         vals = [v for v in vecgen.POOLS[kind] if not vecgen.is_na_val(kind, v)][:5][::-1] * 2
         cases.append({"op": "chain", "frames": [{"n": len(vals), "cols": [{"name": "a", "kind": kind, "vals": vals}]}], "vectors": [{"kind": kind, "vals": vals}, {"kind": kind, "vals": vals}],
                       "steps": [{"on": "frame", "recv": 0, "m": "filter_helper", "r": r} for r in range(24)]})
+    # every frame method on a GROUPED receiver and with a GROUPED argument (group_by marks a frame for the rest of its life):
+    # whether the call returns or refuses, both keep their grouping — two frames with repeated key values, so that the calls
+    # that demand unique keys (compare) do refuse
+    for m in FRAME_METHODS:
+        if m in ("group_by",):
+            continue
+        fr = lambda: {"n": 4, "cols": [{"name": "a", "kind": "int", "vals": [1, 1, 2, 2]}, {"name": "b", "kind": "str", "vals": ["x", "y", "x", "y"]},
+                                        {"name": "c", "kind": "float", "vals": [0.5, 1.5, 0.5, 2.5]}]}
+        for who in (0, 1):
+            cases.append({"op": "chain", "frames": [fr(), fr()], "vectors": [{"kind": "int", "vals": [1, 2, 3, 4]}, {"kind": "float", "vals": [0.5, 1.5, 2.5, 3.5]}],
+                          "steps": [{"on": "frame", "recv": who, "m": "group_by", "r": 5}, {"on": "frame", "recv": 0, "m": m, "r": 7 + who}]})
     n = 400 if ctx.tier == "quick" else 6000
     for _ in range(n):
         cases.append(gen_case(rng, ctx.tier))
